@@ -166,3 +166,124 @@ def stmt_of(node) -> ast.stmt:
     while cur is not None and not isinstance(cur, ast.stmt):
         cur = getattr(cur, "_parent", None)
     return cur
+
+
+# --------------------------------------------------------------------------------------------------
+# Normalisation helpers: rules match modulo harmless rewrites (renamed / introduced locals, nested vs
+# conjoined conditions, De Morgan, guard clauses, `== True`, `not x is None`, x * x, np.dot ...)
+# --------------------------------------------------------------------------------------------------
+def norm_atom(e: ast.AST, positive: bool = True):
+    """(canonical text, polarity) of a test atom."""
+    while True:
+        if isinstance(e, ast.UnaryOp) and isinstance(e.op, ast.Not):
+            e, positive = e.operand, not positive
+            continue
+        if isinstance(e, ast.Compare) and len(e.ops) == 1:
+            op, l, r = e.ops[0], e.left, e.comparators[0]
+            if isinstance(op, (ast.Eq, ast.Is)) and isinstance(r, ast.Constant) and r.value is True:
+                e = l
+                continue
+            if isinstance(op, (ast.Eq, ast.Is)) and isinstance(r, ast.Constant) and r.value is False:
+                e, positive = l, not positive
+                continue
+            if isinstance(op, (ast.NotEq, ast.IsNot)) and isinstance(r, ast.Constant) and r.value is True:
+                e, positive = l, not positive
+                continue
+            if isinstance(op, (ast.NotEq, ast.IsNot)) and isinstance(r, ast.Constant) and r.value is False:
+                e = l
+                continue
+            neg = {ast.NotEq: ast.Eq, ast.IsNot: ast.Is, ast.NotIn: ast.In, ast.GtE: ast.Lt, ast.LtE: ast.Gt}
+            for k, v in neg.items():
+                if isinstance(op, k) and not isinstance(op, (ast.GtE, ast.LtE)):
+                    e = ast.Compare(left=l, ops=[v()], comparators=[r])
+                    positive = not positive
+                    break
+            else:
+                break
+            continue
+        break
+    return unparse(e), positive
+
+
+def conjuncts(test: ast.AST, positive: bool = True):
+    """The test as a conjunction of (canonical atom text, polarity, atom node): `a and b`, `not (a or b)` are split;
+    returns None when the test (under this polarity) is a genuine disjunction."""
+    if isinstance(test, ast.UnaryOp) and isinstance(test.op, ast.Not):
+        return conjuncts(test.operand, not positive)
+    if isinstance(test, ast.BoolOp):
+        is_and = isinstance(test.op, ast.And)
+        if is_and == positive:
+            out = []
+            for v in test.values:
+                c = conjuncts(v, positive)
+                if c is None:
+                    return None
+                out += c
+            return out
+        return None
+    t, pol = norm_atom(test, positive)
+    return [(t, pol, test)]
+
+
+def guards_of(node: ast.AST, stop=None):
+    """Conditions under which `node` is reached inside its function, as a list of (atom text, polarity, atom node):
+    enclosing if-tests (with branch polarity) and preceding guard clauses of the enclosing blocks
+    (`if T: return / raise / continue / break` makes `not T` hold afterwards).  Disjunctive information is dropped
+    (reported as ('?', True, test) so that callers can see it was there)."""
+    from .index import parents
+    out = []
+    child = node
+    for p in parents(node):
+        if stop is not None and p is stop:
+            break
+        if isinstance(p, (ast.FunctionDef, ast.AsyncFunctionDef, ast.Lambda)):
+            # guard clauses of the function body itself
+            _guard_clauses(p.body, child, out)
+            break
+        if isinstance(p, ast.If):
+            in_body = any(child is x for x in p.body)
+            in_else = any(child is x for x in p.orelse)
+            if in_body or in_else:
+                c = conjuncts(p.test, in_body)
+                out += c if c is not None else [("?", True, p.test)]
+        for field in ("body", "orelse", "finalbody"):
+            blk = getattr(p, field, None)
+            if isinstance(blk, list) and any(child is x for x in blk):
+                _guard_clauses(blk, child, out)
+        child = p
+    return out
+
+
+def _guard_clauses(blk, child, out):
+    for prev in blk:
+        if prev is child:
+            break
+        if isinstance(prev, ast.If) and not prev.orelse and prev.body and isinstance(prev.body[-1], (ast.Return, ast.Raise, ast.Continue, ast.Break)):
+            c = conjuncts(prev.test, False)
+            out += c if c is not None else [("?", True, prev.test)]
+
+
+def deep_inline(func: Func, expr: ast.AST, extra=None, depth: int = 8) -> ast.AST:
+    """inline single-definition locals (of func and of its enclosing functions) to a fixpoint"""
+    defs = dict(single_defs(func))
+    f = func.parent
+    while f is not None:
+        for k, v in single_defs(f).items():
+            defs.setdefault(k, v)
+        f = f.parent
+    if extra:
+        defs.update(extra)
+    return inline(func, expr, depth=depth, defs=defs)
+
+
+def square_base(e: ast.AST):
+    """v for `v ** 2`, `v * v`, np.square(v), np.power(v, 2); else None"""
+    if isinstance(e, ast.BinOp) and isinstance(e.op, ast.Pow) and is_num(e.right, 2):
+        return e.left
+    if isinstance(e, ast.BinOp) and isinstance(e.op, ast.Mult) and unparse(e.left) == unparse(e.right):
+        return e.left
+    if isinstance(e, ast.Call) and (dotted(e.func) or "") in ("np.square", "numpy.square") and len(e.args) == 1:
+        return e.args[0]
+    if isinstance(e, ast.Call) and (dotted(e.func) or "") in ("np.power", "numpy.power") and len(e.args) == 2 and is_num(e.args[1], 2):
+        return e.args[0]
+    return None
